@@ -77,6 +77,7 @@ func cfgS4(prop string, seed uint64, tier string) *RunCfg {
 	}
 	c.Clients = []ClientSpec{cs}
 	c.Knobs["timeout_ms"] = []int{500, 2000}[r.Intn(2)]
+	c.Slow = slowClasses(r, ".mon", "handleRequest", "/client:", ".txn")
 	c.Knobs["backoff_ms"] = []int{50, 200}[r.Intn(2)]
 	sch := KitchenSink(c.SchemaVariant)
 	tabs := append([]string(nil), sch.TableNames...)
